@@ -7053,6 +7053,7 @@ class _RoundShape(Shape):
         rx = self.implicit_rx
         ry = self.implicit_ry
         if self.is_degenerate():
+            self.apply = original
             return ()
         center = self.implicit_center
         path.move((self.point_at_t(0)))
